@@ -87,12 +87,54 @@ def gen_case(rng, kind):
     return {"block": lines, "cfg": cfg}
 
 
+def _L(form, key, indent=0, trail=0, sfx=0):
+    return {"form": form, "key": cps(key), "indent": indent, "trail": trail, "sfx": sfx}
+
+
+def sweep_cases(kind, quick):
+    """Structured long blocks: the interesting position sweeps over the block -- the first repeated key is the k-th of
+    m distinct ones, the first inversion / failing line / the bound sits at position p of m -- for m around the sizes
+    at which implementations change strategy (4, 8, 16, 32, 64)."""
+    sizes = [3, 4, 5, 7, 8, 9, 10, 15, 16, 17, 31, 32, 33, 63, 64, 65] if quick else list(range(2, 71))
+    keys = [a + b for a in "abcdefghij" for b in "klmnopqrst"]          # 100 distinct two-letter keys, ascending
+    out = []
+    for m in sizes:
+        ps = sorted({1, 2, m // 2, m - 1, m}) if quick else range(1, m + 1)
+        for p_ in ps:
+            if p_ < 1 or p_ > m:
+                continue
+            if kind == "unique":
+                for pat, form in (("none", "k"), ("group", "id")):
+                    ls = [_L(form, keys[i]) for i in range(m)] + [_L(form, keys[p_ - 1], sfx=1 if form != "k" else 0)]
+                    if m % 2:
+                        ls += [_L(form, keys[m]), _L(form, keys[0], indent=2)]        # a later duplicate must not win
+                    out.append({"block": ls, "cfg": {"kind": "unique", "dir": "asc", "sp": "", "pat": pat, "fmt": "lex", "lp": "any", "op": "==", "n": 0}})
+            elif kind == "sorted":
+                ks = keys[:m + 1]
+                if p_ < len(ks):
+                    ks[p_ - 1], ks[p_] = ks[p_], ks[p_ - 1]           # one adjacent inversion at position p
+                out.append({"block": [_L("k", k) for k in ks],
+                            "cfg": {"kind": "sorted", "dir": "asc", "sp": "", "pat": "none", "fmt": "lex", "lp": "any", "op": "==", "n": 0}})
+            elif kind == "pattern":
+                ls = [_L("k", keys[i]) for i in range(m)]
+                ls[p_ - 1] = _L("k", "A1")                              # the only failing line
+                out.append({"block": ls, "cfg": {"kind": "pattern", "dir": "asc", "sp": "", "pat": "none", "fmt": "lex", "lp": "lower", "op": "==", "n": 0}})
+            else:
+                ls = [_L("k", keys[i]) for i in range(m)]
+                for op, n_ in (("<", m), ("<=", m - 1), ("==", m + 1), (">=", m + 1), (">", m), ("==", m)):
+                    out.append({"block": ls, "cfg": {"kind": "count", "dir": "asc", "sp": "0", "pat": "none", "fmt": "lex", "lp": "any", "op": op, "n": n_}})
+                break
+    return out
+
+
 def project_line(text):
     """Concrete line -> abstract record (inverse of rules_common.line_text)."""
     if text == "":
         return {"form": "blank", "key": [], "indent": 0, "trail": 0, "sfx": 0}
     if text.strip(" \t") == "":
         return {"form": "ws", "key": [], "indent": len(text), "trail": 0, "sfx": 0}
+    if text.strip() == "":
+        return {"form": "uws", "key": [], "indent": len(text) // 2, "trail": 0, "sfx": 0}
     indent = len(text) - len(text.lstrip(" "))
     trail = len(text) - len(text.rstrip(" "))
     t = text.strip(" ")
@@ -115,10 +157,10 @@ def project_cfg(attrs, kind):
         cfg["sp"] = v
         cfg["dir"] = "asc" if v.strip() == "" else v.lower()
         p = attrs.get("keep-sorted-pattern", "")
-        cfg["pat"] = {"": "none", rc.GROUP_RE: "group", rc.PLAIN_RE: "plain"}[p]
+        cfg["pat"] = {"": "none", rc.GROUP_RE: "group", rc.PLAIN_RE: "plain", rc.STAR_RE: "gstar", rc.ALT_RE: "galt", rc.ANCH_RE: "ganch"}[p]
         cfg["fmt"] = "num" if attrs.get("keep-sorted-format", "").strip().lower() == "numeric" else "lex"
     elif kind == "unique":
-        cfg["pat"] = {"": "none", rc.GROUP_RE: "group", rc.PLAIN_RE: "plain"}[attrs.get("keep-unique", "")]
+        cfg["pat"] = {"": "none", rc.GROUP_RE: "group", rc.PLAIN_RE: "plain", rc.STAR_RE: "gstar", rc.ALT_RE: "galt", rc.ANCH_RE: "ganch"}[attrs.get("keep-unique", "")]
     elif kind == "pattern":
         cfg["lp"] = {v: k for k, v in rc.LP.items()}[attrs["line-pattern"]]
     else:
@@ -134,8 +176,9 @@ def run(chk, kind, n=300):
     rng = chk.rng
     tdir = vlib.subdir("trace-rules-" + kind)
     batch, texts = [], {}
-    for ci in range(n):
-        case = gen_case(rng, kind)
+    planned = sweep_cases(kind, n < 1000)
+    for ci in range(n + len(planned)):
+        case = gen_case(rng, kind) if ci < n else planned[ci - n]
         name, text, _ = rc.render(case, "line", ci % 4)
         cid = "long%d" % ci
         batch.append({"id": cid, "files": {name: text}, "diff": None, "args": [], "terminal": True})
